@@ -49,6 +49,38 @@ func init() {
 		_, bad := c12FailedBackupCase(explore.NewLocalCtx("C12"), base, int(numField(rep, "fault_at")))
 		return bad, nil
 	}
+	replayers["shortwrite12"] = func(rep map[string]interface{}) (string, error) {
+		base, err := baseOf(rep)
+		if err != nil {
+			return "", err
+		}
+		w, err := parseWord(rep["op"])
+		if err != nil || len(w) != 1 {
+			return "", fmt.Errorf("bad op: %v", err)
+		}
+		_, bad := c12AfterShortWriteCase(explore.NewLocalCtx("C12"), base, w[0], int(numField(rep, "fault_at")))
+		return bad, nil
+	}
+	replayers["grow16"] = func(rep map[string]interface{}) (string, error) {
+		scratch, err := os.MkdirTemp("/dev/shm", "pogverif-replay-")
+		if err != nil {
+			return "", err
+		}
+		defer os.RemoveAll(scratch)
+		return strings.ReplaceAll(c16GrowPastMapping(fmt.Sprint(rep["fs"]), scratch+"/db"), scratch, "<scratch>"), nil
+	}
+	replayers["grow17"] = func(rep map[string]interface{}) (string, error) {
+		scratch, err := os.MkdirTemp("/dev/shm", "pogverif-replay-")
+		if err != nil {
+			return "", err
+		}
+		defer os.RemoveAll(scratch)
+		a, b := c16GrowPastMapping("os", scratch+"/o"), c16GrowPastMapping("osmmap", scratch+"/m")
+		if a != b {
+			return strings.ReplaceAll(fmt.Sprintf("fs=os: %q; fs=osmmap: %q", a, b), scratch, "<scratch>"), nil
+		}
+		return "", nil
+	}
 	replayers["seq12"] = func(rep map[string]interface{}) (string, error) {
 		base, err := baseOf(rep)
 		if err != nil {
